@@ -1,7 +1,7 @@
-CONSTANTS FlawShallowListFreeze = TRUE
+CONSTANTS FlawShallowListFreeze = FALSE
  FlawSharedConstants = TRUE
- FlawInPlaceSort = TRUE
- FlawAppendSharesCapacity = TRUE
+ FlawInPlaceSort = FALSE
+ FlawAppendSharesCapacity = FALSE
  OnlyTargets = {}
  MaxMut = 2
  DeepVias = {"direct", "alias", "arg", "compr", "loop"}
